@@ -173,6 +173,9 @@ def slice_all(text, header_regex, what, expect):
 
 
 def gen_mdrv(verif, dst, repo):
+    # mdrv compiles against the mproto mirror: regenerate it first
+    import gen as _gen
+    _gen.prepare_crate("mproto", verif, os.path.dirname(os.path.dirname(dst)), repo)
     w = os.path.join(repo, "wtransport", "src")
     gen_root = os.path.join(dst, "src", "gen")
     sliced = {}
@@ -235,3 +238,32 @@ def gen_mdrv(verif, dst, repo):
 
 
 GENERATORS["mdrv"] = gen_mdrv
+
+
+# ------------------------------------------------------------------------------------------------
+# mx509: verify_server_cert slice (C10)
+# ------------------------------------------------------------------------------------------------
+
+def gen_mx509(verif, dst, repo):
+    tls = open(os.path.join(repo, "wtransport", "src", "tls.rs")).read()
+    m = re.findall(r"^\s*const SELF_MAX_VALIDITY: time::Duration = [^;]+;", tls, re.M)
+    if len(m) != 1:
+        raise GenError("tls.rs: expected exactly one SELF_MAX_VALIDITY constant")
+    const_line = m[0].strip()
+    impl_text, impl_ln = slice_item(tls, r"^    impl ServerCertVerifier for ServerHashVerification \{", "impl ServerCertVerifier for ServerHashVerification")
+    fn_text, rel_ln = slice_item(impl_text, r"^        fn verify_server_cert\(", "verify_server_cert")
+    ln = impl_ln + rel_ln - 1
+    if fn_text.count("fn verify_server_cert(") != 1:
+        raise GenError("verify_server_cert slice has an unexpected shape")
+    fn_text = fn_text.replace("fn verify_server_cert(", "pub fn verify_server_cert(", 1)
+    out = "impl ServerHashVerification {\n    " + const_line + "\n\n" + fn_text + "\n}\n"
+    write_if_changed(os.path.join(dst, "src", "gen", "sliced.rs"), out)
+    return {
+        "sliced": {f"wtransport/src/tls.rs:{ln} ServerHashVerification::verify_server_cert": len(fn_text),
+                   "wtransport/src/tls.rs SELF_MAX_VALIDITY": const_line},
+        "models": ["models/x509-parser (certificate = function of 52 DER bytes)", "models/time (whole seconds)",
+                   "models/sha2 (digest carried by the model certificate)", "ModelSet (<= 2 pinned hashes)"],
+    }
+
+
+GENERATORS["mx509"] = gen_mx509
